@@ -42,7 +42,9 @@ def rewrite(r, data, kinds=None, p=0.5, value_gen=None):
                 if 'unknown_members' in kinds and r.random() < p * 0.6:
                     known = set(cdns_schema.MAPS[n.ann])
                     for _ in range(r.choice([1, 1, 2])):
-                        k = r.choice([r.randrange(17, 24), r.randrange(24, 300), r.randrange(300, 70000), 2 ** 40 + r.randrange(100), -r.randrange(4, 300), -2 ** 33])
+                        k = r.choice([r.randrange(17, 24), r.randrange(24, 300), r.randrange(300, 70000), 2 ** 40 + r.randrange(100), -r.randrange(4, 300), -2 ** 33,
+                                      # the ends of the CBOR integer range (outside int64): still "unknown integer keys"
+                                      r.choice([2 ** 63 - 1, 2 ** 63, 2 ** 64 - 1, 2 ** 64 - 2, 2 ** 64 - 3, -2 ** 63, -2 ** 63 - 1, -2 ** 64, -2 ** 64 + 1, -2 ** 64 + 5])])
                         if k in known or any(kk.value == k for kk, _ in n.value):
                             continue
                         key = Node(UINT if k >= 0 else NEG, k, _rand_width(r, k if k >= 0 else -1 - k) if r.random() < 0.3 else None)
